@@ -35,6 +35,7 @@ type ntAlt struct {
 	PosSet   bool
 	NonEmpty map[string]bool      // list fields known to be non-empty
 	ElemAlts map[string][]*ntAlt // possible shapes of the elements of a vertex-list field (nil = unknown)
+	ChildAlts map[string][]*ntAlt // possible shapes of the value of a vertex field (nil = unknown); carriers only
 }
 
 func (a *ntAlt) key() string {
@@ -115,6 +116,10 @@ type ntInfo struct {
 	ListNil, ListEmpty, ListNonEmpty bool // possible shapes seen
 	ElemsNonNil, ElemsPos           bool
 	Seen                            bool
+	ElemAlts                        []*ntAlt // list: possible shapes of the elements (nil = unknown)
+	ElemAltsSet                     bool
+	FirstAlts                       []*ntAlt // list: possible shapes of element 0 (nil = see ElemAlts)
+	firstDead                       bool
 }
 
 func (n *ntInfo) String() string {
@@ -165,7 +170,8 @@ type gStructVal struct{ Of *gObj }
 
 // gList: a slice value: optional opaque base plus elements appended/literal
 type gList struct {
-	Base   *gObj // opaque prefix (an input list or an old list field); nil = none
+	Pre    []gv  // elements in front of the opaque part
+	Base   *gObj // opaque part (an input list or an old list field); nil = none
 	App    []gv
 	NonNil bool // known to be a non-nil slice (literal, make, or result of append)
 	Tok    bool // slice of tokens (else of vertices)
@@ -211,9 +217,12 @@ type gObj struct {
 	Opened  bool          // some field was read or written by the action
 	Content gv            // pos objects: gPosV or nil (opaque)
 	// list bases
+	ElemAlts []*ntAlt
+	FirstAlts []*ntAlt
 	LNil, LEmpty, LNonEmpty bool
 	ElemsNonNil, ElemsPos   bool
 	NewIdx  int
+	ListElemOf int // >0: element of the explicit (bounded) list $ListElemOf
 }
 
 func (o *gObj) String() string { return o.Origin }
@@ -256,7 +265,10 @@ type gRun struct {
 	steps   int
 	facts   map[string]bool
 	lenEq   map[int]int // opaque list object id -> known length
+	bounded bool        // some input list was enumerated up to gramListBound elements
 }
+
+const gramListBound = 2
 
 func (r *gRun) fail(class string, pos token.Pos, f string, a ...interface{}) {
 	r.fails = append(r.fails, gFail{class, fmt.Sprintf(f, a...), pos})
@@ -350,10 +362,58 @@ func (r *gRun) setupInputs() bool {
 			if ni == nil || !ni.Seen {
 				return false
 			}
+			if r.gp.Explicit[sym] {
+				// bounded: the list is enumerated element by element up to gramListBound elements
+				var choices []int // -1 = nil, 0 = empty non-nil, k = k elements
+				var labs []string
+				if ni.ListNil {
+					choices, labs = append(choices, -1), append(labs, origin+"=nil")
+				}
+				if ni.ListEmpty {
+					choices, labs = append(choices, 0), append(labs, "len("+origin+")=0")
+				}
+				if ni.ListNonEmpty {
+					for k := 1; k <= gramListBound; k++ {
+						choices, labs = append(choices, k), append(labs, fmt.Sprintf("len(%s)=%d", origin, k))
+					}
+				}
+				if len(choices) == 0 {
+					return false
+				}
+				if ni.ListNonEmpty && !ni.ElemAltsSet {
+					return false // element shapes not computed yet (earlier fixpoint round)
+				}
+				c := 0
+				if len(choices) > 1 {
+					c = r.decide("shape:"+origin, len(choices), labs)
+				}
+				n := choices[c]
+				if n < 0 {
+					slot["list"] = gNil{}
+					continue
+				}
+				l := &gList{NonNil: true}
+				for k := 0; k < n; k++ {
+					e := r.newObj("node", fmt.Sprintf("%s[%d]", origin, k))
+					e.Input, e.Dollar = true, 0
+					e.MaybeNil = !ni.ElemsNonNil
+					e.Alts = ni.ElemAlts
+					if k == 0 && ni.FirstAlts != nil {
+						e.Alts = ni.FirstAlts
+					}
+					e.ListElemOf = i
+					l.App = append(l.App, gRef{e})
+				}
+				slot["list"] = l
+				r.bounded = true
+				continue
+			}
 			o := r.newObj("list", origin)
 			o.Input, o.Dollar = true, i
 			o.LNil, o.LEmpty, o.LNonEmpty = ni.ListNil, ni.ListEmpty, ni.ListNonEmpty
 			o.ElemsNonNil, o.ElemsPos = ni.ElemsNonNil, ni.ElemsPos
+			o.ElemAlts = ni.ElemAlts
+			o.FirstAlts = ni.FirstAlts
 			slot["list"] = &gList{Base: o}
 			r.dollarO[i] = o
 		case "":
@@ -454,7 +514,7 @@ func (r *gRun) isNil(v gv) bool {
 		r.facts[k] = c == 0
 		return c == 0
 	case *gList:
-		if x.NonNil || len(x.App) > 0 {
+		if x.NonNil || len(x.App) > 0 || len(x.Pre) > 0 {
 			return false
 		}
 		if x.Base == nil {
@@ -462,6 +522,9 @@ func (r *gRun) isNil(v gv) bool {
 		}
 		b := x.Base
 		if !b.LNil {
+			return false
+		}
+		if d, ok := r.facts[fmt.Sprintf("lempty:%d", b.ID)]; ok && !d {
 			return false
 		}
 		if !b.LEmpty && !b.LNonEmpty {
@@ -526,6 +589,18 @@ func (r *gRun) preField(o *gObj, f string, ft types.Type) gv {
 			if known && o.Alt.NonNilF[f] {
 				c.MaybeNil = false
 			}
+			if known && o.Alt.ChildAlts[f] != nil {
+				c.Alts = o.Alt.ChildAlts[f]
+				hasNil := false
+				for _, a := range c.Alts {
+					if a.Nil {
+						hasNil = true
+					}
+				}
+				if !hasNil {
+					c.MaybeNil = false
+				}
+			}
 			v = gRef{c}
 		case "vertices":
 			c := r.newObj("list", origin)
@@ -546,6 +621,9 @@ func (r *gRun) preField(o *gObj, f string, ft types.Type) gv {
 			c.Input, c.Parent, c.PField = true, o, f
 			c.MaybeNil = !(known && o.Alt.PosSet)
 			if o.Kind == "token" {
+				c.MaybeNil = false
+			}
+			if o.Kind == "node" && r.posSetOf(o) {
 				c.MaybeNil = false
 			}
 			v = gRef{c}
@@ -645,6 +723,28 @@ func (r *gRun) val(v ssa.Value) gv {
 	return gOpaque{"ext:" + v.Name()}
 }
 
+// wantExplicit: the action inspects list inputs element by element; ask for the bounded
+// (explicit) representation of every list-typed right-hand-side symbol and re-run
+func (r *gRun) wantExplicit() {
+	for i, sym := range r.rule.RHS {
+		_ = i
+		if r.symKind(sym) == "list" && !r.gp.Explicit[sym] {
+			r.gp.Explicit[sym] = true
+			r.gp.ExplicitGrew = true
+		}
+	}
+}
+
+func (r *gRun) wantExplicitOf(b *gObj) {
+	if b != nil && b.Dollar > 0 && b.Kind == "list" {
+		sym := r.rule.RHS[b.Dollar-1]
+		if !r.gp.Explicit[sym] {
+			r.gp.Explicit[sym] = true
+			r.gp.ExplicitGrew = true
+		}
+	}
+}
+
 type gLoop struct{}
 
 // runRegion executes the region of the rule under the decisions in r.dec.
@@ -654,8 +754,12 @@ func (r *gRun) runRegion(reg *gramRegion) {
 	visited := map[*ssa.BasicBlock]int{}
 	for b != r.gp.Done {
 		visited[b]++
-		if visited[b] > 1 {
+		if visited[b] > 1 && !r.bounded {
+			r.wantExplicit()
 			panic(gAbort{"loop in the action (outside the modelled subset; bounded stand-in)"})
+		}
+		if visited[b] > 40 {
+			panic(gAbort{"loop in the action does not terminate within 40 iterations on a bounded list"})
 		}
 		// phis
 		for _, in := range b.Instrs {
@@ -742,6 +846,9 @@ func describeG(v gv) string {
 		return "*" + x.Of.Origin
 	case *gList:
 		var parts []string
+		for _, a := range x.Pre {
+			parts = append(parts, describeG(a))
+		}
 		if x.Base != nil {
 			parts = append(parts, x.Base.Origin+"...")
 		}
@@ -843,6 +950,7 @@ func (r *gRun) exec(in ssa.Instruction) {
 					return
 				}
 			}
+			r.wantExplicitOf(xv.Base)
 			r.fail("subset", i.Pos(), "slice expression over a symbolic list")
 			panic(gAbort{"symbolic slicing"})
 		}
@@ -959,6 +1067,12 @@ func (r *gRun) exec(in ssa.Instruction) {
 }
 
 func (r *gRun) listElemAddr(l *gList, idx gv, pos token.Pos) gv {
+	if k, ok := idx.(gInt); ok && l.Base != nil && int(k.V) < len(l.Pre) && k.V >= 0 {
+		return gAddr{Kind: "cell", Cell: &gCell{V: l.Pre[k.V]}}
+	}
+	if l.Base == nil && len(l.Pre) > 0 {
+		l = &gList{App: append(append([]gv{}, l.Pre...), l.App...), NonNil: l.NonNil, Tok: l.Tok}
+	}
 	if k, ok := idx.(gInt); ok && l.Base == nil {
 		if k.V >= 0 && int(k.V) < len(l.App) {
 			c := &gCell{V: l.App[k.V]}
@@ -968,20 +1082,35 @@ func (r *gRun) listElemAddr(l *gList, idx gv, pos token.Pos) gv {
 		panic(gAbort{"index out of range"})
 	}
 	// symbolic element of an opaque list
+	if l.Base != nil && l.Base.Dollar > 0 {
+		// element access into a list-typed symbol: use the bounded explicit representation
+		r.wantExplicitOf(l.Base)
+		r.fail("subset", pos, "element access into the symbolic list %s", l.Base.Origin)
+		panic(gAbort{"symbolic index"})
+	}
 	desc := describeG(idx)
-	if l.Base != nil && len(l.App) == 0 {
+	if l.Base != nil && len(l.App) == 0 && len(l.Pre) == 0 {
 		b := l.Base
 		okIdx := false
+		if d, okf := r.facts[fmt.Sprintf("lempty:%d", b.ID)]; okf && !d {
+			if k, ok := idx.(gInt); ok && k.V == 0 {
+				okIdx = true
+			}
+			if gl, ok := idx.(gLen); ok && gl.Base == b && gl.Add == -1 {
+				okIdx = true
+			}
+		}
 		if k, ok := idx.(gInt); ok && k.V == 0 {
 			// first element: needs non-emptiness
 			if b.LNonEmpty && !b.LNil && !b.LEmpty {
 				okIdx = true
 			}
 		}
-		if strings.HasPrefix(desc, "(len(") && strings.HasSuffix(desc, " - 1)") {
+		if gl, ok := idx.(gLen); ok && gl.Base == b && gl.Add == -1 {
 			if b.LNonEmpty && !b.LNil && !b.LEmpty {
 				okIdx = true
 			}
+			desc = "last"
 		}
 		if n, known := r.lenEq[b.ID]; known {
 			if kk, ok := idx.(gInt); ok && int(kk.V) < n {
@@ -1000,6 +1129,9 @@ func (r *gRun) listElemAddr(l *gList, idx gv, pos token.Pos) gv {
 		c.MaybeNil = !b.ElemsNonNil
 		if b.Parent != nil && b.Parent.Alt != nil {
 			c.Alts = b.Parent.Alt.ElemAlts[b.PField]
+		}
+		if b.Dollar > 0 && b.ElemAlts != nil && !c.MaybeNil {
+			c.Alts = b.ElemAlts
 		}
 		v := gRef{c}
 		b.Pre[k] = v
@@ -1134,6 +1266,15 @@ func (r *gRun) binop(i *ssa.BinOp) gv {
 			return gBool{ai.V >= bi.V}
 		}
 	}
+	if al, ok := a.(gLen); ok && bok && (i.Op == token.ADD || i.Op == token.SUB) {
+		if i.Op == token.ADD {
+			return gLen{al.Base, al.Add + int(bi.V)}
+		}
+		return gLen{al.Base, al.Add - int(bi.V)}
+	}
+	if v, ok := r.lenTest(i.Op, a, b); ok {
+		return v
+	}
 	if al, ok := a.(gLen); ok && bok && (i.Op == token.EQL || i.Op == token.NEQ) {
 		k := int(bi.V) - al.Add
 		b0 := al.Base
@@ -1192,6 +1333,82 @@ func (r *gRun) binop(i *ssa.BinOp) gv {
 		}
 	}
 	return gOpaque{"(" + describeG(a) + " " + i.Op.String() + " " + describeG(b) + ")"}
+}
+
+// lenTest: comparisons between len(opaque list)+c and a constant that amount to an emptiness test
+func (r *gRun) lenTest(op token.Token, a, b gv) (gv, bool) {
+	var gl gLen
+	var k int64
+	flip := false
+	if x, ok := a.(gLen); ok {
+		c, ok2 := b.(gInt)
+		if !ok2 {
+			return nil, false
+		}
+		gl, k = x, c.V
+	} else if x, ok := b.(gLen); ok {
+		c, ok2 := a.(gInt)
+		if !ok2 {
+			return nil, false
+		}
+		gl, k, flip = x, c.V, true
+	} else {
+		return nil, false
+	}
+	eval := func(n int64) (bool, bool) {
+		l, rr := n+int64(gl.Add), k
+		if flip {
+			l, rr = k, n+int64(gl.Add)
+		}
+		switch op {
+		case token.LSS:
+			return l < rr, true
+		case token.LEQ:
+			return l <= rr, true
+		case token.GTR:
+			return l > rr, true
+		case token.GEQ:
+			return l >= rr, true
+		}
+		return false, false
+	}
+	v0, ok := eval(0)
+	if !ok {
+		return nil, false
+	}
+	v1, _ := eval(1)
+	vb, _ := eval(1 << 40)
+	if v1 != vb {
+		return nil, false
+	}
+	if v0 == v1 {
+		return gBool{v0}, true
+	}
+	b0 := gl.Base
+	key := fmt.Sprintf("lempty:%d", b0.ID)
+	var empty bool
+	switch {
+	case !b0.LNonEmpty:
+		empty = true
+	case !b0.LNil && !b0.LEmpty:
+		empty = false
+	default:
+		if d, okf := r.facts[fmt.Sprintf("lnil:%d", b0.ID)]; okf && d {
+			empty = true
+		} else if d, okf := r.facts[key]; okf {
+			empty = d
+		} else if n, known := r.lenEq[b0.ID]; known {
+			empty = n == 0
+		} else {
+			c := r.decide("empty:"+b0.Origin, 2, []string{"len(" + b0.Origin + ")==0", "len(" + b0.Origin + ")>0"})
+			empty = c == 0
+		}
+	}
+	r.facts[key] = empty
+	if empty {
+		return gBool{v0}, true
+	}
+	return gBool{v1}, true
 }
 
 func (r *gRun) typeAssert(i *ssa.TypeAssert) {
@@ -1367,12 +1584,24 @@ func (r *gRun) call(i *ssa.Call) {
 				}
 			}
 			nl := &gList{Base: base.Base, NonNil: true, Tok: base.Tok}
+			nl.Pre = append(nl.Pre, base.Pre...)
 			nl.App = append(nl.App, base.App...)
 			switch more := args[1].(type) {
 			case *gList:
 				if more.Base != nil {
-					r.fail("subset", i.Pos(), "append of a symbolic list")
-					panic(gAbort{"append symbolic"})
+					if base.Base != nil {
+						r.wantExplicitOf(base.Base)
+						r.wantExplicitOf(more.Base)
+						r.fail("subset", i.Pos(), "append of a symbolic list to a symbolic list")
+						panic(gAbort{"append symbolic"})
+					}
+					// literal elements followed by an opaque list
+					nl.Pre = append(append(nl.Pre, nl.App...), more.Pre...)
+					nl.App = nil
+					nl.Base = more.Base
+				}
+				if more.Base == nil {
+					nl.App = append(nl.App, more.Pre...)
 				}
 				nl.App = append(nl.App, more.App...)
 			case gNil:
@@ -1384,7 +1613,7 @@ func (r *gRun) call(i *ssa.Call) {
 			return
 		case "len":
 			if l, ok := args[0].(*gList); ok && l.Base == nil {
-				r.env[i] = gInt{int64(len(l.App))}
+				r.env[i] = gInt{int64(len(l.App) + len(l.Pre))}
 				return
 			}
 			if _, ok := args[0].(gNil); ok {
@@ -1393,14 +1622,18 @@ func (r *gRun) call(i *ssa.Call) {
 			}
 			if l, ok := args[0].(*gList); ok && l.Base != nil {
 				if d, okf := r.facts[fmt.Sprintf("lnil:%d", l.Base.ID)]; okf && d {
-					r.env[i] = gInt{int64(len(l.App))}
+					r.env[i] = gInt{int64(len(l.App) + len(l.Pre))}
+					return
+				}
+				if d, okf := r.facts[fmt.Sprintf("lempty:%d", l.Base.ID)]; okf && d {
+					r.env[i] = gInt{int64(len(l.App) + len(l.Pre))}
 					return
 				}
 				if n, okn := r.lenEq[l.Base.ID]; okn {
-					r.env[i] = gInt{int64(n + len(l.App))}
+					r.env[i] = gInt{int64(n + len(l.App) + len(l.Pre))}
 					return
 				}
-				r.env[i] = gLen{l.Base, len(l.App)}
+				r.env[i] = gLen{l.Base, len(l.App) + len(l.Pre)}
 				return
 			}
 			r.env[i] = gOpaque{"len(" + describeG(args[0]) + ")"}
@@ -1487,6 +1720,9 @@ func (r *gRun) call(i *ssa.Call) {
 		if b.Parent != nil && b.Parent.Alt != nil && !c.MaybeNil {
 			c.Alts = b.Parent.Alt.ElemAlts[b.PField]
 		}
+		if b.Dollar > 0 && b.ElemAlts != nil && !c.MaybeNil {
+			c.Alts = b.ElemAlts
+		}
 		b.Pre[k] = gRef{c}
 		r.env[i] = gRef{c}
 		return
@@ -1497,8 +1733,46 @@ func (r *gRun) call(i *ssa.Call) {
 		r.env[i] = gOpaque{"error(" + describeG(args[0]) + ")"}
 		return
 	}
+	if r.gp.guardedCallbackHelper(callee) {
+		// a method of *Parser that is exactly "if p.errHandlerFunc == nil { return }; p.errHandlerFunc(e)"
+		r.cbCalls++
+		return
+	}
 	r.fail("subset", i.Pos(), "call of %s is outside the modelled subset", full)
 	panic(gAbort{"unmodelled call"})
+}
+
+// guardedCallbackHelper recognises, from the trace of the real function, a helper whose whole
+// effect is to call the optional error callback when it is not nil.
+func (gp *gramParser) guardedCallbackHelper(fn *ssa.Function) bool {
+	if v, ok := gp.cbHelper[fn]; ok {
+		return v
+	}
+	res := false
+	if fn.Signature.Recv() != nil && funcPkgPath(fn) == gp.Pkg && fn.Blocks != nil {
+		paths, err := traceFunction(gp.W, fn, nil)
+		if err == nil {
+			ps := feasible(paths)
+			nilPath, callPath := 0, 0
+			ok := true
+			for _, p := range ps {
+				switch {
+				case len(p.Conds) == 1 && len(p.Events) == 0 && p.Conds[0].Val && p.Conds[0].E.S == "(p.errHandlerFunc == nil)":
+					nilPath++
+				case len(p.Conds) == 1 && !p.Conds[0].Val && p.Conds[0].E.S == "(p.errHandlerFunc == nil)" && len(p.Events) == 1 && p.Events[0].Callee == "dyncall" && p.Events[0].Recv != nil && p.Events[0].Recv.S == "p.errHandlerFunc":
+					callPath++
+				default:
+					ok = false
+				}
+			}
+			res = ok && nilPath == 1 && callPath == 1
+		}
+	}
+	if gp.cbHelper == nil {
+		gp.cbHelper = map[*ssa.Function]bool{}
+	}
+	gp.cbHelper[fn] = res
+	return res
 }
 
 func positionPtrType(w *World) types.Type {
@@ -1526,12 +1800,26 @@ func (gp *gramParser) runRule(rule *yRule, nts map[string]*ntInfo, maxPaths int)
 			return
 		}
 		r := &gRun{gp: gp, rule: rule, nts: nts, dec: dec, env: map[ssa.Value]gv{}, facts: map[string]bool{}, lenEq: map[int]int{}}
-		if !r.setupInputs() {
+		res := &gPathRes{Run: r, Dec: log}
+		var need *needDecision
+		setupOK := true
+		func() {
+			defer func() {
+				if e := recover(); e != nil {
+					if x, ok := e.(needDecision); ok {
+						need = &x
+						return
+					}
+					panic(e)
+				}
+			}()
+			setupOK = r.setupInputs()
+		}()
+		if need == nil && !setupOK {
 			skipped = true
 			return
 		}
-		res := &gPathRes{Run: r, Dec: log}
-		var need *needDecision
+		if need == nil {
 		func() {
 			defer func() {
 				if e := recover(); e != nil {
@@ -1549,6 +1837,7 @@ func (gp *gramParser) runRule(rule *yRule, nts map[string]*ntInfo, maxPaths int)
 				r.runRegion(reg)
 			}
 		}()
+		}
 		if need != nil {
 			for c := 0; c < need.N; c++ {
 				nd := map[string]int{}
